@@ -295,6 +295,54 @@ def main(out_path):
     L.append('def shouldBroadcastFor (height cltv_expiry : Nat) (htlc_outbound has_preimage : Bool) : Bool :=')
     L.append('  ' + em3.e(parse_expr(cond)))
     L.append('')
+    # WHICH commitments are scanned, under which `$holder_tx` flag, how the direction of an HTLC is derived from the flag,
+    # and the early-return gate in front of the scans (round 5: the condition alone says nothing about a scan that is
+    # dropped or run with the wrong side's flag)
+    m = re.search(r'let htlc_outbound = (\$holder_tx (?:==|!=) htlc\.offered);', b)
+    if not m: raise TranslateError("should_broadcast_holder_commitment_txn: derivation of htlc_outbound changed")
+    dir_expr = m.group(1).replace('$holder_tx', 'holder_tx').replace('htlc.offered', 'offered')
+    mac_end = match_brace(b, b.index('{', b.index('macro_rules! scan_commitment')))
+    after = b[mac_end:]
+    scans = re.findall(r'scan_commitment!\((.*?), (true|false)\);', after, re.S)
+    names = []
+    for src, flag in scans:
+        s = ' '.join(src.split())
+        if s == 'holder_commitment_htlcs!(self, CURRENT)': names.append(('holderCurrent', flag))
+        elif s == 'htlc_outputs.iter().map(|&(ref a, _)| a)': names.append(('counterparty', flag))
+        else: raise TranslateError("should_broadcast_holder_commitment_txn scans an unknown HTLC set: %s" % s)
+    cps = re.findall(r'if let Some\(ref txid\) = self\.funding\.(\w+) \{\s*if let Some\(ref htlc_outputs\) = self\.funding\.counterparty_claimable_outpoints\.get\(txid\) \{\s*scan_commitment!', after)
+    if [n for n, _ in names].count('counterparty') != len(cps):
+        raise TranslateError("should_broadcast_holder_commitment_txn: counterparty scans no longer keyed by a commitment txid each")
+    known = {'current_counterparty_commitment_txid': 'counterpartyCurrent', 'prev_counterparty_commitment_txid': 'counterpartyPrev'}
+    it = iter(cps); scan_list = []
+    for n, flag in names:
+        if n == 'counterparty':
+            k = next(it)
+            if k not in known: raise TranslateError("should_broadcast_holder_commitment_txn scans an unknown counterparty commitment: %s" % k)
+            n = known[k]
+        scan_list.append((n, flag))
+    if re.search(r'\breturn\b', after) or not re.search(r'\bNone\s*\}?\s*$', after.strip()):
+        raise TranslateError("should_broadcast_holder_commitment_txn: something other than the scans follows the macro")
+    head = b[:b.index('macro_rules! scan_commitment')]
+    mg = re.search(r'^\s*\{\s*if (self\.funding_spend_confirmed\.is_some\(\)) \|\|\s*self\.onchain_events_awaiting_threshold_conf\.iter\(\)\.find\(\|event\| match event\.event \{\s*'
+                   r'OnchainEvent::FundingSpendConfirmation \{ \.\. \} => true,\s*_ => false,\s*\}\)\.is_some\(\)\s*\{\s*return None;\s*\}\s*let height = self\.best_block\.height;\s*$', head, re.S)
+    if not mg: raise TranslateError("should_broadcast_holder_commitment_txn: early-return gate / height source in front of the scans changed")
+    L.append('/-- the HTLC sets should_broadcast_holder_commitment_txn scans -/')
+    L.append('inductive ScanSet where')
+    L.append('  | holderCurrent | counterpartyCurrent | counterpartyPrev')
+    L.append('  deriving DecidableEq, Repr, Inhabited')
+    L.append('def ScanSet.name : ScanSet → String')
+    for n in ('holderCurrent', 'counterpartyCurrent', 'counterpartyPrev'): L.append('  | .%s => "%s"' % (n, n))
+    L.append('/-- TRANSLATED: the `scan_commitment!(<set>, <holder_tx>)` invocations in source order -/')
+    L.append('def scanList : List (ScanSet × Bool) := [%s]' % ', '.join('(.%s, %s)' % x for x in scan_list))
+    L.append('/-- TRANSLATED: `let htlc_outbound = %s;` -/' % m.group(1))
+    L.append('def scanHtlcOutbound (holder_tx offered : Bool) : Bool :=')
+    L.append('  ' + Emitter(env={'holder_tx': 'holder_tx', 'offered': 'offered'}).e(parse_expr(dir_expr)))
+    L.append('/-- TRANSLATED gate: the function returns None before any scan iff `self.funding_spend_confirmed.is_some() ||` an')
+    L.append('    OnchainEvent::FundingSpendConfirmation awaits its threshold; pinned: nothing else precedes the scans, `height = self.best_block.height` -/')
+    L.append('def broadcastGateClosed (funding_spend_confirmed funding_spend_awaiting_conf : Bool) : Bool :=')
+    L.append('  (funding_spend_confirmed || funding_spend_awaiting_conf)')
+    L.append('')
 
     # --- OnchainEventEntry::confirmation_threshold ------------------------------------------------
     _, _, body = find_fn(mon, 'confirmation_threshold')
